@@ -4,10 +4,11 @@
 (*   "ev": [ {"j": binary scale exponent, "sq_id": code of X X = M,           *)
 (*            "sq_fv": X against S sqrt(D) S^-1, "lg_id": expm(logm M) = M,   *)
 (*            "lg_fv": logm M against S log(D) S^-1} ]}                       *)
-(* codes: 2 within the allowance (1e-9 cond(S)^2 relative), 4 outside, 7 not  *)
+(*            "lg_jx": jax.scipy.linalg.expm(logm M) = M (drift only)} ]}     *)
+(* codes: 2 within the allowance (1e-9 cond(S) relative), 4 outside, 7 not    *)
 (* finite.  Every lattice point has a positive spectrum, so all four clauses  *)
 (* apply to every event; the spec checks that the point belongs to the        *)
-(* lattice (and, through the invariants, that its oracle algebra holds).      *)
+(* lattice (its oracle algebra is checked by the design run).                 *)
 EXTENDS DenseMatFn, Json, IOUtils, TLC
 
 Traces == ndJsonDeserialize(IOEnv.TRACE_FILE)
@@ -20,8 +21,9 @@ Clauses(t, e) ==
   [ sqrtm_identity |-> InLattice(t) /\ e.sq_id = 2
   , sqrtm_value    |-> InLattice(t) /\ e.sq_fv = 2
   , logm_identity  |-> InLattice(t) /\ e.lg_id = 2
-  , logm_value     |-> InLattice(t) /\ e.lg_fv = 2 ]
-ClauseNames == {"sqrtm_identity", "sqrtm_value", "logm_identity", "logm_value"}
+  , logm_value     |-> InLattice(t) /\ e.lg_fv = 2
+  , drift_jax_expm |-> e.lg_jx = 2 ]      \* jax.scipy.linalg.expm(logm M) = M: depends on jax's expm, never an alarm
+ClauseNames == {"sqrtm_identity", "sqrtm_value", "logm_identity", "logm_value", "drift_jax_expm"}
 
 TInit == tid = 1 /\ l = 0 /\ viol = {} /\ pt = None
 Step ==
@@ -29,7 +31,7 @@ Step ==
   /\ LET t == Traces[tid]
          e == t.ev[l + 1]
          cl == Clauses(t, e)
-     IN /\ pt' = IF l = 0 /\ InLattice(t) THEN Point(t.n, t.spec, t.shear) ELSE pt
+     IN /\ pt' = pt
         /\ viol' = viol \cup { <<t.id, l + 1, c>> : c \in {c \in ClauseNames : ~cl[c]} }
   /\ l' = l + 1 /\ tid' = tid
 NextTrace ==
